@@ -39,12 +39,23 @@ int evutil_read_file_(const char *filename, char **content_out, size_t *len_out,
 #define C34_IDTRIES 3      /* the RNG yields a usable id at the latest on the 3rd draw (assumption) */
 #endif
 
-/* ---- RNG: solver-chosen bytes; every C34_IDTRIES-th two-byte draw is assumed usable as a transaction id ---- */
-static int c34_id_draws, c34_rng_calls;
+/* ---- RNG ----
+ * cbmc does not fold `id % 1`, so with solver-chosen ids every REQ_HEAD(base, id) update is a write at a symbolic
+ * index and the request table stops being a constant for symex (minutes per step).  The states are therefore built
+ * with the ids 0x1001, 0x1002, ... (any distinct values != 0xffff behave alike: the id only selects the bucket, and
+ * there is one bucket); harness_txid switches to solver-chosen bytes for the pick it examines, where every
+ * C34_IDTRIES-th two-byte draw is assumed usable (the RNG eventually yields a fresh id). */
+static int c34_id_draws, c34_rng_calls, c34_rng_symbolic;
+static unsigned short c34_next_id = 0x1001;
 static int c34_id_in_use(unsigned short id);
 void evutil_secure_rng_get_bytes(void *buf, size_t n)
 {
 	c34_rng_calls++;
+	if (!c34_rng_symbolic) {
+		VP_ASSERT(n == 2, "harness: only transaction ids are drawn in these states");
+		*(unsigned short *)buf = c34_next_id++;
+		return;
+	}
 	vp_bytes(buf, n);
 	if (n == 2) {
 		unsigned short id = *(unsigned short *)buf;
@@ -361,6 +372,7 @@ void harness_txid(void)
 {
 	u16 id; struct request *r; int n;
 	c34_setup();
+	c34_rng_symbolic = 1;
 	EVDNS_LOCK(c34_base);
 	id = transaction_id_pick(c34_base);
 	EVDNS_UNLOCK(c34_base);
@@ -369,6 +381,6 @@ void harness_txid(void)
 	if (n >= 1) VP_ASSERT(r->trans_id != id, "C34: transaction_id_pick returned the id of an inflight request");
 	if (n >= 2) VP_ASSERT(r->next->trans_id != id, "C34: transaction_id_pick returned the id of an inflight request (second)");
 	VP_ASSERT(request_find_from_trans_id(c34_base, id) == NULL, "C34: picked id is found inflight");
-	if (n == 2 && c34_id_draws >= C34_NREQ + 2) VP_WITNESS("C34 txid: fresh id after a rejected draw, two requests inflight");
+	if (n == 2 && c34_id_draws >= 2) VP_WITNESS("C34 txid: fresh id after a rejected draw, two requests inflight");
 	if (n >= 1) VP_WITNESS("C34 txid: id picked with requests inflight");
 }
